@@ -118,6 +118,22 @@ def layouts(x):
     return [("Fortran-ordered", np.asfortranarray(x)), ("strided", v)]
 
 
+def allclose(a, b, **kw):
+    """np.allclose that treats arrays of different (non-scalar) shapes as different instead of raising or broadcasting: a result of
+    the wrong shape is a disagreement with the specification, never an exception of the harness."""
+    import numpy as np
+
+    if a is None or b is None:
+        return False
+    sa, sb = np.shape(a), np.shape(b)
+    if sa != sb and sa != () and sb != ():
+        return False
+    try:
+        return bool(np.allclose(a, b, **kw))
+    except (TypeError, ValueError):
+        return False
+
+
 def tree_hash():
     h = hashlib.sha256()
     for base in (os.path.join(REPO, "sigpy"), os.path.join(ROOT, "spec"), os.path.join(ROOT, "harness")):
